@@ -305,6 +305,7 @@ func f64Case(op string, fields ...string) Case {
 }
 
 func genF64(g *G) {
+	g.R = g.R.Fork() // NewRNG(seed+1) is NewRNG(seed) shifted by one draw: decorrelate the seeds
 	hexb := func(u uint64) string { return fmt.Sprintf("%016x", u) }
 	// specials: every pair for the binary operations
 	all := append([]uint64(nil), f64Specials...)
